@@ -397,7 +397,11 @@ struct Cfg { int threads = 1; size_t maxReq = 4096; size_t maxResp = 65536; int 
 
 std::unique_ptr<Http::Endpoint> EP; Cfg curCfg; uint16_t curPort = 0;
 
-void stopEndpoint() { if (EP) { EP->shutdown(); EP.reset(); } }
+void stopEndpoint()
+{
+    { std::lock_guard<std::mutex> g(LIFE.m); LIFE.transports.clear(); }     // they die with the endpoint
+    if (EP) { EP->shutdown(); EP.reset(); }
+}
 
 uint16_t ensureEndpoint(const Cfg& c)
 {
@@ -1121,6 +1125,10 @@ std::string opStall(const std::vector<std::string>& w)
     long attemptsDuring; int srvFd; { std::lock_guard<std::mutex> g(WR.m); attemptsDuring = WR.attempts - attemptsBefore; srvFd = WR.targetFd; }
     // data is queued for A and its socket is full: write interest must be registered with the worker's epoll (EPOLLOUT = 4)
     long maskDuring = interestOf(srvFd);
+    // ... provided something IS still queued (a small batch may have fitted into the kernel's socket buffers completely)
+    bool pendingDuring = false;
+    { std::lock_guard<std::mutex> g(LIFE.m);
+      for (auto* tr : LIFE.transports) { std::lock_guard<std::mutex> g2(tr->toWriteLock); auto it = tr->toWrite.find(srvFd); if (it != tr->toWrite.end() && !it->second.empty()) pendingDuring = true; } }
     int fc = -1; int cAnswered = -1;
     if (third) {
         // C is an established, idle connection; while the worker is busy with B, C's request arrives (readable) and then A starts
@@ -1187,7 +1195,9 @@ std::string opStall(const std::vector<std::string>& w)
         + " recv=" + std::to_string(got.size()) + " match=" + (firstDiff == std::string::npos ? "1" : "0:" + std::to_string(firstDiff)) + " promises=";
     for (size_t i = 0; i < WR.promises.size(); ++i) { if (i) out += ","; out += WR.promises[i] + (WR.settles[i] > 1 ? "x" + std::to_string(WR.settles[i]) : ""); }
     if (WR.promises.empty()) out += "-";
-    out += std::string(" wint=") + (maskDuring < 0 ? "?" : (maskDuring & 4) ? "1" : "0") + (maskAfter < 0 ? "?" : (maskAfter & 4) ? "1" : "0");
+    // first character: 1 = data pending and interest registered, 0 = data pending but NO interest, - = nothing was pending (and no
+    // interest), x = interest registered although nothing is pending
+    out += std::string(" wint=") + (maskDuring < 0 ? "?" : pendingDuring ? ((maskDuring & 4) ? "1" : "0") : ((maskDuring & 4) ? "x" : "-")) + (maskAfter < 0 ? "?" : (maskAfter & 4) ? "1" : "0");
     if (third) out += " c=" + std::to_string(cAnswered);
     out += " raw_worst_ms=" + std::to_string(worst) + " raw_attempts=" + std::to_string(attemptsDuring);
     return out;
